@@ -332,6 +332,103 @@ fn structural_edits(
     }
 }
 
+/// Coordinated edits on the text of a package (each `emit` gets one tampered text):
+/// (1) re-splitting the digits of two adjacent numeric fields (`"price":100,"visible_quantity":50`
+///     -> `1005` / `0`, `10` / `050` is not a number and is skipped, ...): the concatenation of
+///     the values stays the same, only the field boundary moves;
+/// (2) "wrapping": the original snapshot body kept verbatim under another (unknown, duplicate or
+///     nested) key next to an edited `snapshot`, in every order of the keys.
+fn coordinated_edits(original: &str, max_pairs: usize, emit: &mut dyn FnMut(&str, &str) -> Result<(), String>) -> Result<usize, String> {
+    let b = original.as_bytes();
+    let mut count = 0usize;
+    // ---- (1) adjacent numeric fields: ...:<digits>,"<key>":<digits>...
+    let mut runs: Vec<(usize, usize)> = Vec::new(); // digit runs that are whole JSON numbers (after ':')
+    let mut i = 0;
+    while i < b.len() {
+        if b[i].is_ascii_digit() && i > 0 && b[i - 1] == b':' {
+            let a = i;
+            while i < b.len() && b[i].is_ascii_digit() {
+                i += 1;
+            }
+            if i < b.len() && (b[i] == b',' || b[i] == b'}') {
+                runs.push((a, i));
+            }
+        } else {
+            i += 1;
+        }
+    }
+    let valid = |d: &str| !d.is_empty() && (d == "0" || !d.starts_with('0')) && d.parse::<u64>().is_ok();
+    let mut pairs: Vec<((usize, usize), (usize, usize))> = Vec::new();
+    for w in runs.windows(2) {
+        let between = &original[w[0].1..w[1].0];
+        // only `,"key":` between them (same object, adjacent fields)
+        if between.starts_with(",\"") && between.ends_with("\":") && !between[2..between.len() - 2].contains('"') {
+            pairs.push((w[0], w[1]));
+        }
+    }
+    let np = pairs.len();
+    for (k, (ra, rb)) in pairs.into_iter().enumerate() {
+        if np > max_pairs && !(k < max_pairs / 2 || k + max_pairs / 2 >= np) {
+            continue;
+        }
+        let cat = format!("{}{}", &original[ra.0..ra.1], &original[rb.0..rb.1]);
+        let la = ra.1 - ra.0;
+        for cut in 1..cat.len() {
+            if cut == la {
+                continue;
+            }
+            let (x, y) = cat.split_at(cut);
+            if valid(x) && valid(y) {
+                let t = format!("{}{}{}{}{}", &original[..ra.0], x, &original[ra.1..rb.0], y, &original[rb.1..]);
+                count += 1;
+                emit(&format!("digits of two adjacent numbers re-split: {}|{} -> {}|{}", &original[ra.0..ra.1], &original[rb.0..rb.1], x, y), &t)?;
+            }
+        }
+    }
+    // ---- (2) wrapping
+    let (sa, sb) = match (original.find("\"snapshot\":"), original.rfind(",\"checksum\":")) {
+        (Some(a), Some(b2)) if a + 11 < b2 => (a + 11, b2),
+        _ => return Ok(count),
+    };
+    let head = &original[..sa - 11]; // `{"version":1,`
+    let body = &original[sa..sb];
+    let tail = &original[sb + 1..original.len() - 1]; // `"checksum":"..."`
+    // edited bodies: the first and the last number of the body changed in their last digit
+    let mut edited: Vec<String> = Vec::new();
+    let body_runs: Vec<(usize, usize)> = runs.iter().filter(|r| r.0 >= sa && r.1 <= sb).map(|r| (r.0 - sa, r.1 - sa)).collect();
+    for r in [body_runs.first(), body_runs.last()].into_iter().flatten() {
+        let mut e = body.as_bytes().to_vec();
+        let last = r.1 - 1;
+        e[last] = if e[last] == b'9' { b'8' } else { e[last] + 1 };
+        let e = String::from_utf8(e).unwrap();
+        if !edited.contains(&e) {
+            edited.push(e);
+        }
+    }
+    for e in &edited {
+        let variants: Vec<(&str, String)> = vec![
+            ("original body kept under an unknown key before the edited snapshot", format!("{head}\"previous\":{body},\"snapshot\":{e},{tail}}}")),
+            ("original body kept under an unknown key after the edited snapshot", format!("{head}\"snapshot\":{e},\"previous\":{body},{tail}}}")),
+            ("original body kept under an unknown key at the end", format!("{head}\"snapshot\":{e},{tail},\"previous\":{body}}}")),
+            ("original body kept under an unknown key at the front", format!("{{\"previous\":{body},{}\"snapshot\":{e},{tail}}}", &head[1..])),
+            ("duplicate snapshot key, original first", format!("{head}\"snapshot\":{body},\"snapshot\":{e},{tail}}}")),
+            ("duplicate snapshot key, edited first", format!("{head}\"snapshot\":{e},\"snapshot\":{body},{tail}}}")),
+            ("edited snapshot with the original nested inside it", format!("{head}\"snapshot\":{},\"previous\":{body}}},{tail}}}", &e[..e.len() - 1])),
+            ("whole original package nested under an unknown key of an edited one", format!("{head}\"snapshot\":{e},{tail},\"backup\":{original}}}")),
+            ("whole original package nested under an unknown key in front of the edited snapshot", format!("{head}\"backup\":{original},\"snapshot\":{e},{tail}}}")),
+            ("whole original package nested under an unknown key at the very front", format!("{{\"backup\":{original},{}\"snapshot\":{e},{tail}}}", &head[1..])),
+            ("original snapshot and checksum members nested under an unknown key in front", format!("{head}\"previous\":{{\"snapshot\":{body},{tail}}},\"snapshot\":{e},{tail}}}")),
+            ("original package as a string value in front", format!("{head}\"note\":{},\"snapshot\":{e},{tail}}}", serde_json::to_string(original).unwrap())),
+            ("checksum and snapshot swapped, original body under an unknown key", format!("{head}{tail},\"previous\":{body},\"snapshot\":{e}}}")),
+        ];
+        for (name, t) in variants {
+            count += 1;
+            emit(name, &t)?;
+        }
+    }
+    Ok(count)
+}
+
 pub fn eval(c: &Content, st: &mut Stats, deep: bool) -> Result<(), String> {
     let large = c.book.orders.len() > 12;
     let level = c.book.build_level();
@@ -435,6 +532,9 @@ pub fn eval(c: &Content, st: &mut Stats, deep: bool) -> Result<(), String> {
         })?
     };
     st.add("faults/structural", n_edits as u64);
+    // coordinated text-level edits: digits moved between adjacent numbers, wrapping
+    let n_coord = coordinated_edits(&original, if large { 24 } else { 400 }, &mut |name, t| judge(&mut j, t.as_bytes(), &|| format!("coordinated edit [{name}]")))?;
+    st.add("faults/coordinated", n_coord as u64);
     // pairs of faults
     for (a, b) in &c.pairs {
         if let Some(v1) = single_fault(ob, a.0, a.1, a.2) {
